@@ -40,6 +40,7 @@ PROPS = {
     "C15": dict(
         title="gerror: factories immutable; message/tag/source/stack compose lawfully",
         lean_modules=["Properties.C15"],
+        extract=[dict(name="extract-gerror", cmd=["go", "-C", "harness", "run", "./cmd/extract-gerror", "-out", "../lean/Generated"])],
         harness=[dict(bin="h-gerrclone")],
         trusted=[GO_TRUST % "h-gerrclone"],
         assumptions=[],
